@@ -4,7 +4,7 @@ CONSTANTS
   GenMaxN = 5
   GenMod = 1
   PackLimits <- MCLimits
-  PackModes <- MCModes
+  PackModes <- MCModesFT
 INIT MInit
 NEXT MNext
 CONSTRAINT GenEmit
